@@ -601,11 +601,15 @@ class Materialiser:
                 o = self._obj(spec["obj"])
                 if o.t != mt:
                     raise KeyError("type mismatch")
+                val = o.handle()
+                if spec.get("via_union"):
+                    # the value is itself a (stand-alone) union reference that refers to the object
+                    val = self.classes[t](val, _buffer=o.buf)
                 if o.bufid == self.holder_buf:
                     self.aliased += 1
-                    return o.handle(), URefLeaf(m, o.node)
+                    return val, URefLeaf(m, o.node)
                 self.foreign += 1
-                return o.handle(), URefLeaf(m, copy_node(schema, mt, o.node, False))
+                return val, URefLeaf(m, copy_node(schema, mt, o.node, False))
             p, nd = self.mat(mt, spec["v"])
             from .typegen import type_name
 
